@@ -560,17 +560,27 @@ fn check_ord(c: &OrdCase, obs: &mut Obs) -> CheckResult {
     let nulls = [c.a, c.b, c.c].iter().filter(|v| v.is_none()).count();
     obs.set_nontrivial(nulls >= 1 && nulls <= 2);
     obs.class_if(nulls > 0, "with_null");
-    let f = |v: Option<i32>| v.map(|x| x as f64 * 0.5).unwrap_or(f64::NAN);
+    // float kinds: the value 3 stands for +0.0 and -3 for -0.0 (equal values: neither comes first),
+    // 2 / -2 for the infinities
+    let z = |x: i32| match x {
+        3 => 0.0f64,
+        -3 => -0.0f64,
+        2 => f64::INFINITY,
+        -2 => f64::NEG_INFINITY,
+        x => x as f64 * 0.5,
+    };
+    let f = |v: Option<i32>| v.map(z).unwrap_or(f64::NAN);
+    obs.class_if(c.kind != 2 && c.kind != 3 && [c.a, c.b, c.c].iter().any(|v| *v == Some(-3)), "negative_zero");
     match c.kind {
         0 => ord_laws::<f64>("f64", f(c.a), f(c.b), f(c.c), |x| if x.is_nan() { None } else { Some(*x) }),
-        1 => ord_laws::<Option<f64>>("Option<f64>", c.a.map(|x| x as f64), c.b.map(|x| x as f64), c.c.map(|x| x as f64), |x| *x),
+        1 => ord_laws::<Option<f64>>("Option<f64>", c.a.map(z), c.b.map(z), c.c.map(z), |x| *x),
         2 => ord_laws::<Option<i32>>("Option<i32>", c.a, c.b, c.c, |x| x.map(|v| v as f64)),
         3 => ord_laws::<i32>("i32", c.a.unwrap_or(0), c.b.unwrap_or(1), c.c.unwrap_or(-1), |x| Some(*x as f64)),
         _ => ord_laws::<f32>(
             "f32",
-            c.a.map(|x| x as f32).unwrap_or(f32::NAN),
-            c.b.map(|x| x as f32).unwrap_or(f32::NAN),
-            c.c.map(|x| x as f32).unwrap_or(f32::NAN),
+            c.a.map(|x| z(x) as f32).unwrap_or(f32::NAN),
+            c.b.map(|x| z(x) as f32).unwrap_or(f32::NAN),
+            c.c.map(|x| z(x) as f32).unwrap_or(f32::NAN),
             |x| if x.is_nan() { None } else { Some(*x as f64) },
         ),
     }
